@@ -202,6 +202,68 @@ fn deep(kind: usize, depth: usize) -> (String, &'static str) {
     }
 }
 
+/// Long chains of definitions: nothing nests in the source, the depth is in the references, so
+/// it is resolution and encoding (not the parser) that walk them.
+fn chain(kind: usize, n: usize) -> (String, &'static str) {
+    let mut s = String::from("package a:b;\n");
+    match kind {
+        0 => {
+            s.push_str("type a0 = u8;\n");
+            for i in 1..n {
+                s.push_str(&format!("type a{i} = a{};\n", i - 1));
+            }
+            (s, "alias-chain")
+        }
+        1 => {
+            s.push_str("type a0 = u8;\n");
+            for i in 1..n {
+                s.push_str(&format!("type a{i} = list<a{}>;\n", i - 1));
+            }
+            (s, "list-chain")
+        }
+        2 => {
+            s.push_str("interface i0 { type t = u8; }\n");
+            for i in 1..n {
+                s.push_str(&format!("interface i{i} {{ use i{}.{{t}}; }}\n", i - 1));
+            }
+            (s, "use-chain")
+        }
+        3 => {
+            s.push_str("world w0 { import f: func(); }\n");
+            for i in 1..n {
+                s.push_str(&format!("world w{i} {{ include w{}; }}\n", i - 1));
+            }
+            (s, "include-chain")
+        }
+        _ => {
+            // nesting just inside the parser's limit, through the whole pipeline
+            let d = n.min(60);
+            s.push_str(&format!("type t = {}u8{};\ninterface i {{ f: func(x: {}u8{}) -> {}u8{}; }}\n", "list<".repeat(d), ">".repeat(d), "option<".repeat(d), ">".repeat(d), "tuple<".repeat(d), ">".repeat(d)));
+            (s, "nesting-inside-the-limit")
+        }
+    }
+}
+
+/// Runs `f` on a fresh thread with the given stack size (Rust's default for spawned threads is 2 MiB).
+fn on_thread<T: Send + 'static>(stack: usize, f: impl FnOnce() -> T + Send + 'static) -> T {
+    std::thread::Builder::new().stack_size(stack).spawn(f).expect("spawn").join().expect("join")
+}
+
+fn run_chain(text: &str) -> &'static str {
+    let doc = match Document::parse(text) {
+        Ok(d) => d,
+        Err(_) => return "parse-error",
+    };
+    let res = match doc.resolve(Default::default()) {
+        Ok(r) => r,
+        Err(_) => return "resolve-error",
+    };
+    match res.encode(wac_graph::EncodeOptions::default()) {
+        Ok(_) => "encoded",
+        Err(_) => "encode-error",
+    }
+}
+
 const SHAPED_WAT: [&str; 14] = [
     "(component)",
     "(module)",
@@ -317,6 +379,15 @@ pub fn run(ctx: &mut Ctx) {
             std::mem::forget(r);
             return;
         }
+        if let (Some(k), Some(n)) = (input.get("chain_kind").and_then(|v| v.as_u64()), input.get("length").and_then(|v| v.as_u64())) {
+            let (t, _) = chain(k as usize, n as usize);
+            let r = match input.get("stack_kib").and_then(|v| v.as_u64()) {
+                Some(kib) => on_thread(kib as usize * 1024, move || run_chain(&t)),
+                None => run_chain(&t),
+            };
+            println!("chain input: {r}");
+            return;
+        }
         if let Some(hex) = input.get("bytes_hex").and_then(|t| t.as_str()) {
             let bytes: Vec<u8> = (0..hex.len() / 2).map(|i| u8::from_str_radix(&hex[2 * i..2 * i + 2], 16).unwrap_or(0)).collect();
             check_package(ctx, case, &bytes, &input);
@@ -360,6 +431,29 @@ pub fn run(ctx: &mut Ctx) {
                 Ok(true) => ctx.count("parse:ok"),
                 Ok(false) => ctx.count("parse:error"),
                 Err(p) => ctx.violation(dcase, &panic_sig("parse", &p), format!("Document::parse panicked: {p}"), input.clone()),
+            }
+        }
+    }
+    // L: long chains of definitions through parse, resolve and encode
+    let lengths: &[usize] = if lane.is_some() { &[50] } else { &[10usize, 300, 3_000] };
+    let mut lcase = crate::witness::WITNESS_BASE + 500;
+    for kind in 0..5usize {
+        for n in lengths.iter().copied() {
+            lcase += 1;
+            if !ctx.mine(lcase) {
+                continue;
+            }
+            let (text, name) = chain(kind, n);
+            if text.len() > 1 << 20 {
+                continue;
+            }
+            let input = json!({"chain_kind": kind, "length": n, "what": name});
+            ctx.begin_with_input(lcase, &input);
+            ctx.count(&format!("chain:{name}"));
+            ctx.eval();
+            match catch(|| run_chain(&text)) {
+                Ok(class) => ctx.count(&format!("chain:{name}:{class}")),
+                Err(p) => ctx.violation(lcase, &panic_sig("chain", &p), format!("parse/resolve/encode of a {name} of {n} definitions panicked: {p}"), input.clone()),
             }
         }
     }
